@@ -10,6 +10,16 @@ from pygopherd.handlers.base import VFS_Real
 from pygopherd.handlers.virtual import Virtual
 
 
+def itermessages(mailbox):
+    """Iterate over the messages of a mailbox.  Dot-files inside a Maildir (for
+    instance the directory cache left behind when cur/ was browsed as a plain
+    directory) are not messages."""
+    for key in mailbox.iterkeys():
+        if str(key).startswith("."):
+            continue
+        yield mailbox[key]
+
+
 class FolderHandler(Virtual):
 
     mbox: typing.Union[mbox, Maildir]
@@ -28,7 +38,7 @@ class FolderHandler(Virtual):
     def prepare(self):
         self.entries = []
 
-        for index, message in enumerate(self.mbox, start=1):
+        for index, message in enumerate(itermessages(self.mbox), start=1):
             handler = MessageHandler(
                 self.genargsselector(self.getargflag() + str(index)),
                 self.searchrequest,
@@ -75,7 +85,7 @@ class MessageHandler(Virtual):
     def getentry(self, message=None):
         """Set the message if called from, eg, the dir handler.  Saves
         having to rescan the file.  If not set, will figure it out."""
-        if not message:
+        if message is None:
             message = self.getmessage()
 
         if not self.entry:
@@ -101,7 +111,7 @@ class MessageHandler(Virtual):
             return self.message
 
         try:
-            mailbox = iter(self.openmailbox())
+            mailbox = itermessages(self.openmailbox())
             message = None
             for _ in range(self.message_num):
                 message = next(mailbox)
